@@ -29,7 +29,11 @@ type bookingCase struct {
 	Ops     []string `json:"ops"` // `set:<id>:<period>` create-or-update booking <id> with that booked period
 }
 
+// parseP: "nil"/"absent" = no period at all; "-/-" = the unbounded period `{}`.
 func parseP(s string) *sctime.Period {
+	if s == "nil" || s == "absent" {
+		return nil
+	}
 	q := strings.Split(s, "/")
 	p := &sctime.Period{}
 	if q[0] != "-" {
@@ -59,7 +63,19 @@ func showP(p *sctime.Period) string {
 	return s + "/" + e
 }
 
-// intersects: independent oracle — two half-open intervals with optional bounds share an instant.
+// listed: independent oracle for "the booking is in the filtered collection": no request period =
+// every booking; otherwise the booking needs a booked period sharing an instant with the request's.
+func listed(booked, query string) bool {
+	if query == "absent" {
+		return true
+	}
+	if booked == "nil" {
+		return false
+	}
+	return intersects(booked, query)
+}
+
+// intersects: two half-open intervals with optional bounds share an instant.
 func intersects(a, b string) bool {
 	bound := func(s string, inf int64) int64 {
 		if s == "-" {
@@ -153,7 +169,9 @@ func (c bookingCase) run(m *lib.Monitor) {
 		fenceN++
 		fid := fmt.Sprintf("~%d", fenceN)
 		fper := c.Query
-		if !intersects(fper, fper) { // an empty query period intersects nothing: no fence possible
+		if fper == "absent" {
+			fper = "0/1" // without a request period every booking is listed
+		} else if !intersects(fper, fper) { // an empty query period intersects nothing: no fence possible
 			return nil, false
 		}
 		if err := set("set:" + fid + ":" + fper); err != nil {
@@ -180,7 +198,7 @@ func (c bookingCase) run(m *lib.Monitor) {
 	filtered := func() string {
 		var ids []string
 		for id, p := range shadowP {
-			if intersects(p, c.Query) {
+			if listed(p, c.Query) {
 				ids = append(ids, id)
 			}
 		}
@@ -276,7 +294,9 @@ func (c bookingCase) run(m *lib.Monitor) {
 	m.Eval(c.Query+"/"+strings.Join(c.Ops, " "), true, nil)
 }
 
-func genPeriod(r *rand.Rand) string {
+// genPeriod draws a period shape: no period at all (only when allowNil), unbounded `{}`, start-only,
+// end-only, or both bounds, over seconds 0..8.
+func genPeriod(r *rand.Rand, none string) string {
 	s, e := r.Intn(8), r.Intn(8)
 	if s > e {
 		s, e = e, s
@@ -284,27 +304,47 @@ func genPeriod(r *rand.Rand) string {
 	if s == e {
 		e++
 	}
-	ss, es := fmt.Sprint(s), fmt.Sprint(e)
-	if r.Intn(6) == 0 {
-		ss = "-"
+	switch r.Intn(8) {
+	case 0:
+		return none // "nil" for a booking without booked period, "absent" for a request without booking_intersects
+	case 1:
+		return "-/-"
+	case 2:
+		return fmt.Sprintf("%d/-", s)
+	case 3:
+		return fmt.Sprintf("-/%d", e)
 	}
-	if r.Intn(6) == 0 {
-		es = "-"
-	}
-	return ss + "/" + es
+	return fmt.Sprintf("%d/%d", s, e)
 }
 
+// the systematic part: every request shape x a booking walked through every booking shape
+var queryShapes = []string{"absent", "-/-", "3/-", "-/6", "3/6"}
+var bookingShapes = []string{"nil", "4/-", "-/4", "4/5", "6/8", "1/3", "5/8", "7/9", "-/-", "nil", "2/7"}
+
 func runBooking(f lib.Flags, res *lib.Result) {
-	mon := res.Monitor("booking-period-predicate", "real bookingpb.ModelServer through its wrapper client: random create/update histories of 2-3 bookings with half-open, optionally unbounded booked periods over seconds 0..8, PullBookings/ListBookings(booking_intersects=q): after each write (fenced by creating a fresh intersecting booking) fold(stream) = ListBookings = bookings intersecting q by an integer-interval oracle; every event well formed at the view; distinct = (query, history)")
+	mon := res.Monitor("booking-period-predicate", "real bookingpb.ModelServer through its wrapper client: every request shape (booking_intersects absent, {}, start-only, end-only, both) x a booking walked through every booking shape (no booked period, start-only, end-only, inside, touching, overlapping, disjoint, unbounded), plus random create/update histories of 2-3 bookings with such periods over seconds 0..8, PullBookings/ListBookings(booking_intersects=q): after each write (fenced by creating a fresh intersecting booking) fold(stream) = ListBookings = bookings intersecting q by an integer-interval oracle; every event well formed at the view; distinct = (query, history)")
 	_ = resource.WithInclude
 	r := lib.NewRand(f.Seed + 7)
 	n := f.N(400, 4000)
 	ids := []string{"a", "b", "c"}
+	for _, q := range queryShapes {
+		for nb := 0; nb < 2; nb++ {
+			c := bookingCase{Kind: "booking", Query: q, NBefore: nb * 3}
+			for k, b := range bookingShapes {
+				c.Ops = append(c.Ops, "set:a:"+b)
+				if k%4 == 1 {
+					c.Ops = append(c.Ops, "set:b:"+bookingShapes[(k+5)%len(bookingShapes)])
+				}
+			}
+			c.run(mon)
+			mon.Count("query " + q)
+		}
+	}
 	for i := 0; i < n; i++ {
-		c := bookingCase{Kind: "booking", Query: genPeriod(r), NBefore: r.Intn(3)}
+		c := bookingCase{Kind: "booking", Query: genPeriod(r, "absent"), NBefore: r.Intn(3)}
 		k := c.NBefore + 1 + r.Intn(5)
 		for j := 0; j < k; j++ {
-			c.Ops = append(c.Ops, "set:"+ids[r.Intn(len(ids))]+":"+genPeriod(r))
+			c.Ops = append(c.Ops, "set:"+ids[r.Intn(len(ids))]+":"+genPeriod(r, "nil"))
 		}
 		c.run(mon)
 	}
